@@ -40,9 +40,11 @@ Deviations == { "NoAliveCheckOnIdle",    \* the no-entry path hands out an idle 
                 "ReplaceKeepsDead",     \* a dead connection is re-dialed but the dead one is handed out (the fresh one is dropped)
                 "RetireDropsDead",      \* retire closes and drops a connection already marked dead instead of parking it (harmless by itself;
                                         \* combined with AppendIdleNoCheck it forces the "died while parked" path)
-                "ExpireChecksRear",
-                "CloseHalfIdle",
-                "DeadlineMarksDead" }   \* a call abandoned at its context's deadline marks the (healthy) connection dead and closes it       \* Close walks the idle queue with a shrinking bound and closes only the first half of it    \* idle expiry looks at the calls of the rear entry but closes the front one
+                "ExpireChecksRear",      \* idle expiry looks at the calls of the rear entry but closes the front one
+                "CloseHalfIdle",         \* Close walks the idle queue with a shrinking bound and closes only the first half of it
+                "DeadlineMarksDead",     \* a call abandoned at its context's deadline marks the (healthy) connection dead and closes it
+                "AbandonFreesConn" }     \* a call abandoned at its context's deadline stops counting as a call on its connection at once,
+                                         \* although the server is still working on it
 
 ASSUME Dev \subseteq Deviations
 DevChoice(d) == IF d \in Dev THEN BOOLEAN ELSE {FALSE}
@@ -64,7 +66,7 @@ VARIABLES
     clock,     \* real time
     tnow,      \* Transport.now: the time of the last housekeeping pass (what lastTime is refreshed to)
     closed,    \* Transport.Close was called
-    cst,       \* cst[k]: caller state  "idle" / "got" / "inflight"
+    cst,       \* cst[k]: caller state  "idle" / "got" / "inflight" / "abandoned" (returned at its deadline, request still with the server)
     cconn,     \* cconn[k]: connection the caller holds
     caddr,     \* caddr[k]: address the caller asked for
     ncalls,    \* ncalls[k]: calls made so far
@@ -241,7 +243,9 @@ Register(k, dNoMark) ==
               /\ cst' = [cst EXCEPT ![k] = "idle"]
               /\ alive' = IF dNoMark THEN alive ELSE [alive EXCEPT ![c] = FALSE]
               /\ open' = IF dNoMark THEN open ELSE [open EXCEPT ![c] = FALSE]
-              /\ failsSince' = [failsSince EXCEPT ![k] = @ + 1]
+              \* (only a failure on a connection that died counts towards the recovery bound: one the user closed under the
+              \*  caller - CloseIdleConnections / Close between getConn and send - can be repeated by the user at will)
+              /\ failsSince' = [failsSince EXCEPT ![k] = IF broken[c] THEN @ + 1 ELSE @]
               /\ cconn' = [cconn EXCEPT ![k] = NoConn]
               /\ UNCHANGED busy
     /\ UNCHANGED <<conns, cursor, idle, addrOf, broken, last, used, up, clock, tnow, closed, caddr, ncalls, nkills>>
@@ -259,24 +263,40 @@ Return(k, dNoMark) ==
        /\ IF ok
             THEN /\ failsSince' = [failsSince EXCEPT ![k] = 0]
                  /\ UNCHANGED <<alive, open>>
-            ELSE /\ failsSince' = [failsSince EXCEPT ![k] = @ + 1]
+            ELSE /\ failsSince' = [failsSince EXCEPT ![k] = IF broken[c] THEN @ + 1 ELSE @]
                  /\ alive' = IF dNoMark THEN alive ELSE [alive EXCEPT ![c] = FALSE]
                  /\ open' = IF dNoMark THEN open ELSE [open EXCEPT ![c] = FALSE]
     /\ UNCHANGED <<conns, cursor, idle, addrOf, broken, used, up, clock, tnow, closed, caddr, ncalls, nkills>>
 
 \* CallWithContext: the caller's context ends before the answer. The caller returns the context's error at once; the
 \* connection is healthy and stays pooled (the abandoned call is discarded when its answer arrives).
+\* CallWithContext: the caller's context ends while the call is in flight. The caller returns at once; the request is still with
+\* the server, so the call keeps counting as a call on its connection (NumCalls) until its late answer has been read and
+\* discarded: housekeeping must go on sparing that connection.
 Expire(k, dMarkDead) ==
     /\ cst[k] = "inflight"
     /\ LET c == cconn[k] IN
        /\ open[c] /\ ~broken[c]
-       /\ busy' = [busy EXCEPT ![c] = @ - 1]
        /\ last' = [last EXCEPT ![c] = tnow]
-       /\ cst' = [cst EXCEPT ![k] = "idle"]
-       /\ cconn' = [cconn EXCEPT ![k] = NoConn]
-       /\ alive' = IF dMarkDead THEN [alive EXCEPT ![c] = FALSE] ELSE alive
-       /\ open' = IF dMarkDead THEN [open EXCEPT ![c] = FALSE] ELSE open
+       /\ IF dMarkDead
+            THEN /\ busy' = [busy EXCEPT ![c] = @ - 1]
+                 /\ cst' = [cst EXCEPT ![k] = "idle"]
+                 /\ cconn' = [cconn EXCEPT ![k] = NoConn]
+                 /\ alive' = [alive EXCEPT ![c] = FALSE]
+                 /\ open' = [open EXCEPT ![c] = FALSE]
+            ELSE /\ busy' = IF "AbandonFreesConn" \in Dev THEN [busy EXCEPT ![c] = @ - 1] ELSE busy
+                 /\ cst' = [cst EXCEPT ![k] = "abandoned"]
+                 /\ UNCHANGED <<cconn, alive, open>>
     /\ UNCHANGED <<conns, cursor, idle, addrOf, broken, used, up, clock, tnow, closed, caddr, ncalls, nkills, failsSince>>
+
+\* the late answer of an abandoned call has been read (or its connection has ended): the call no longer counts
+LateAnswer(k) ==
+    /\ cst[k] = "abandoned"
+    /\ LET c == cconn[k] IN
+       busy' = IF "AbandonFreesConn" \in Dev THEN busy ELSE [busy EXCEPT ![c] = @ - 1]
+    /\ cst' = [cst EXCEPT ![k] = "idle"]
+    /\ cconn' = [cconn EXCEPT ![k] = NoConn]
+    /\ UNCHANGED <<conns, cursor, idle, addrOf, alive, open, broken, last, used, up, clock, tnow, closed, caddr, ncalls, nkills, failsSince>>
 
 --------------------------------------------------------------------------------
 \* Housekeeping: one pass of run() (atomic under connsMu; NumCalls is read per connection).
@@ -413,6 +433,7 @@ Next ==
     \/ \E k \in Callers : \E d \in DevChoice("NoMarkDead") : Register(k, d)
     \/ \E k \in Callers : \E d \in DevChoice("NoMarkDead") : Return(k, d)
     \/ \E k \in Callers : \E d \in DevChoice("DeadlineMarksDead") : Expire(k, d)
+    \/ \E k \in Callers : LateAnswer(k)
     \/ \E d1 \in DevChoice("RetireBusy") : \E d2 \in DevChoice("EnqueueNoLimit") : \E d3 \in DevChoice("IdleCloseIgnoresBusy") : Tick(d1, d2, d3)
     \/ \E d1 \in DevChoice("CloseIdleBusy") : \E d2 \in DevChoice("IdleCloseIgnoresBusy") : CloseIdle(d1, d2)
     \/ Close
@@ -457,6 +478,10 @@ SpareBusy ==
 \* call harms no other call; C15)
 NoCollateralClose ==
     [][\A c \in ConnIds : (open[c] /\ ~open'[c] /\ ~broken[c] /\ ~(closed' /\ ~closed)) => busy'[c] = 0]_vars
+\* ... nor a healthy connection on which an abandoned call (context ended, server still working) has not been answered yet
+AbandonedSpared ==
+    [][\A c \in ConnIds : (open[c] /\ ~open'[c] /\ ~broken[c] /\ (\E k \in Callers : cst[k] = "abandoned" /\ cconn[k] = c))
+          => (closed' /\ ~closed) \/ (\E k \in Callers : cconn[k] = c /\ cst[k] \in {"inflight", "got"} /\ cst'[k] = "idle")]_vars
 CloseClosesAll == closed => \A a \in Addrs : conns[a] = <<>> /\ idle[a] = <<>>
 
 ================================================================================
